@@ -238,6 +238,15 @@ func TestC18Track(t *testing.T) {
 		}
 		amount := bigRand(r, pow10(15))
 		tot := bigRand(r, pow10(15))
+		switch r.Intn(6) {
+		case 0: // a quiet period: the bonded stake is exactly the recorded amount
+			tot = new(big.Int).Set(amount)
+		case 1:
+			tot = badd(amount, bi(int64(pick(r, -1, 1))))
+			if tot.Sign() < 0 {
+				tot = bi(0)
+			}
+		}
 		total = math.NewIntFromBigInt(tot)
 		e := time.Unix(0, exp).UTC()
 		if err := k.Tracker.Set(ctx, rtypes.StakeTracker{Expiration: &e, Amount: math.NewIntFromBigInt(amount)}); err != nil {
